@@ -207,4 +207,9 @@ def judge_time_nice(a, b, a2, b2, ticks_before):
     for e in (lo2, hi2):
         if C.coarsest_alignment(e) < req:
             probs.append("niced end %s is not on a %s boundary (tick spacing %s)" % (e.isoformat(), RANK_NAME[req], min(gaps)))
+    # weekly ticks (all of them Sundays, 7 days apart): "aligned at least as coarsely as the ticks" means a week boundary
+    if not probs and all(g_ == timedelta(days=7) for g_ in gaps) and all(t.isoweekday() == 7 for t in ticks_before):
+        for e in (lo2, hi2):
+            if e.isoweekday() != 7:
+                probs.append("niced end %s is not on a week boundary (a Sunday) although the ticks are weekly Sundays" % e.isoformat())
     return probs, True
